@@ -19,6 +19,7 @@ var (
 	ErrObsoleteToken = errors.New("obsolete token format")
 	ErrTokenFormat   = errors.New("badly formatted token")
 	ErrSalted        = errors.New("token already salted")
+	reSaltedSecret   = regexp.MustCompile(`^[0-9a-f]{40}$`)
 )
 
 func SaltToken(token, remote string) (string, error) {
@@ -31,7 +32,7 @@ func SaltToken(token, remote string) (string, error) {
 	}
 	uuid := parts[1]
 	secret := parts[2]
-	if len(secret) != 40 {
+	if !reSaltedSecret.MatchString(secret) {
 		// not already salted
 		hmac := hmac.New(sha1.New, []byte(secret))
 		io.WriteString(hmac, remote)
